@@ -228,6 +228,15 @@ type c06Nest struct {
 	P *c06AB
 	Q *int
 }
+// a field renamed to the empty key by its tag, at the top level and inside a nested record
+type c06EmptyKey struct {
+	Name string `zog:""`
+	Age  int
+}
+type c06EmptyKeyNested struct {
+	In c06EmptyKey
+}
+
 type c06Misc struct {
 	T time.Time
 	F float64
@@ -320,6 +329,14 @@ func c06Targets() []c06Target {
 		{"Preprocess[string,[]string] in struct", func(in any) {
 			var d struct{ V []string }
 			z.Struct(z.Schema{"v": preSlice()}).Parse(map[string]any{"v": in}, &d)
+		}},
+		{"Struct with a field tagged zog:\"\" top (value under the empty key)", func(in any) {
+			var d c06EmptyKey
+			z.Struct(z.Schema{"name": z.String().Min(3).Required(), "age": z.Int().GT(5)}).Parse(map[string]any{"": in, "age": 1}, &d)
+		}},
+		{"Struct with a field tagged zog:\"\" inside a nested record", func(in any) {
+			var d c06EmptyKeyNested
+			z.Struct(z.Schema{"in": z.Struct(z.Schema{"name": z.String().Min(3).Required(), "age": z.Int().GT(5)})}).Parse(map[string]any{"in": map[string]any{"": in, "age": 1}}, &d)
 		}},
 		{"Long keys top", func(in any) {
 			sc, _ := c06LongKeys()
